@@ -50,14 +50,19 @@ RULE = (
 )
 ASSUMPTIONS = [
     "CPython 3.12 importing the rendered package is the reference for visible names and for what each name refers to",
-    "generated packages are acyclic (rule R in vp/gen/c05_pkg.py), side-effect free, and never give a sub-module the name "
-    "of a member of its package (documented unsupported shadowing)",
-    "names of sub-modules of a wildcard source package are not compared unless bound explicitly (import-history dependent "
-    "at runtime; documented special case of is_wildcard_exposed)",
-    "only module-level imports; no TYPE_CHECKING guards, no conditional definitions, no external packages",
+    "generated packages are acyclic (rule R in vp/gen/c05_pkg.py) and side-effect free; object names, module names and "
+    "__all__ helper names come from disjoint pools, so nothing a package defines or imports (also through a wildcard) "
+    "carries the name of one of its own sub-modules, except the sub-module itself imported directly (documented "
+    "unsupported shadowing, docs/guide/users/recommendations/python-code.md)",
+    "names of sub-modules of a wildcard source package (without __all__) that the package does not import explicitly are "
+    "not compared (import-history dependent at runtime; documented special case of is_wildcard_exposed)",
+    "one statement per line (Griffe orders re-bindings by line number); only module-level imports; no TYPE_CHECKING "
+    "guards, no conditional definitions, no external packages",
     "order and duplicates of __all__ are not compared (irrelevant to `import *`)",
+    "the simulated namespace in vp/gen/c05_pkg.py only decides which names the generator may mention, which names fall "
+    "under the sub-module tolerance and how failures are bucketed; every verdict compares Griffe with CPython",
 ]
-BUDGET_S = {"quick": 100.0, "thorough": 1500.0}
+BUDGET_S = {"quick": 70.0, "thorough": 1500.0}
 SHRINK_MAX_EXAMPLES = 4000
 
 # ------------------------------------------------------------------------------------------------ scratch space
@@ -347,7 +352,8 @@ def _alias_presents(alias, ft, cvalue, norm, src_text) -> list[Fail]:
 # ------------------------------------------------------------------------------------------------ known findings
 def _known_stale_alias(case, fail: Fail) -> bool:
     """stale-alias-after-wildcard-override: the failing name's import chain passes through a module-level name that is
-    bound by an explicit import and re-bound by a later wildcard import of the same module (`tainted`). Only the
+    bound by an explicit import and re-bound by a later wildcard import of the same module, or defined locally and
+    re-bound by two later wildcard imports (`tainted`). Only the
     `target` clause (wrong object / wrong definition) can be attributed; the re-binding module itself must be right."""
     if fail.clause != "target" or not fail.kind.startswith(("wrong-object", "wrong-definition")):
         return False
@@ -418,4 +424,4 @@ def describe(case):
 def run_shard(ctx) -> None:
     use_scratch(ctx.tmp)
     strat, salt = strategy(ctx)
-    ctx.run_hypothesis(strat, check_case, ctx.scale(1200, 40000), describe=describe, salt=salt)
+    ctx.run_hypothesis(strat, check_case, ctx.scale(1500, 30000), describe=describe, salt=salt)
